@@ -33,24 +33,30 @@ public:
         bool desired{};
         for (;;) {
             for (size_t i = 1;; ++i) {
+                YK_VERIF(k_load, this, f_rootlock, 0);
                 expected = root_lock_.load(std::memory_order_acquire);
                 if (expected) {
                     if (i >= 10) { break; }
+                    YK_VERIF(k_spin, this, f_rootlock, 0);
                     _mm_pause();
                     continue;
                 }
                 desired = true;
+                YK_VERIF(k_cas, this, f_rootlock, 0);
                 if (root_lock_.compare_exchange_weak(expected, desired,
                                                 std::memory_order_acq_rel,
                                                 std::memory_order_acquire)) {
+                    YK_VERIF(k_cas_ok, this, f_rootlock, 0);
                     return;
                 }
             }
+            YK_VERIF(k_sleep, this, f_rootlock, 0);
             std::this_thread::sleep_for(std::chrono::microseconds(1));
         }
     }
 
     void root_unlock() {
+        YK_VERIF(k_store, this, f_rootlock, 0);
         root_lock_.store(false, std::memory_order_release);
     }
 
